@@ -332,11 +332,104 @@ def atoms(test: ast.AST, polarity: bool = True) -> List[Tuple[str, bool]]:
     return [(norm(test), polarity)]
 
 
+_NEG_OPS = {ast.IsNot: ast.Is, ast.NotEq: ast.Eq, ast.NotIn: ast.In}
+_MIRROR = {ast.Lt: ast.Gt, ast.Gt: ast.Lt, ast.LtE: ast.GtE, ast.GtE: ast.LtE, ast.Eq: ast.Eq, ast.NotEq: ast.NotEq}
+_CANON_CACHE: Dict[Tuple[str, bool], Tuple[str, bool]] = {}
+
+
+def canon_atom(atom: Tuple[str, bool]) -> Tuple[str, bool]:
+    """Canonical spelling of an atomic fact: `not`, `is not`, `!=`, `not in` are folded into the
+    polarity, a constant left operand is mirrored to the right (`0 < x` -> `x > 0`)."""
+    if not (isinstance(atom, tuple) and len(atom) == 2 and isinstance(atom[0], str)):
+        return atom
+    if atom in _CANON_CACHE:
+        return _CANON_CACHE[atom]
+    text, pol = atom
+    try:
+        e = ast.parse(text, mode="eval").body
+    except SyntaxError:
+        _CANON_CACHE[atom] = atom
+        return atom
+    while isinstance(e, ast.UnaryOp) and isinstance(e.op, ast.Not):
+        e = e.operand
+        pol = not pol
+    if isinstance(e, ast.Compare) and len(e.ops) == 1:
+        op = e.ops[0]
+        left, right = e.left, e.comparators[0]
+        if type(op) in _NEG_OPS:
+            op = _NEG_OPS[type(op)]()
+            pol = not pol
+        if isinstance(left, ast.Constant) and not isinstance(right, ast.Constant) and type(op) in _MIRROR:
+            left, right, op = right, left, _MIRROR[type(op)]()
+        e = ast.Compare(left=left, ops=[op], comparators=[right])
+    out = (norm(e), pol)
+    _CANON_CACHE[atom] = out
+    return out
+
+
+class AtomSet(set):
+    """A set of (text, polarity) facts compared modulo `canon_atom`."""
+
+    def __init__(self, items=()):  # type: ignore[no-untyped-def]
+        super().__init__(canon_atom(i) for i in items)
+
+    def _c(self, other):  # type: ignore[no-untyped-def]
+        return other if isinstance(other, AtomSet) else AtomSet(other)
+
+    def __contains__(self, item) -> bool:  # type: ignore[no-untyped-def]
+        return set.__contains__(self, canon_atom(item))
+
+    def __eq__(self, other) -> bool:  # type: ignore[no-untyped-def]
+        return isinstance(other, (set, frozenset)) and set.__eq__(self, self._c(other))
+
+    def __ne__(self, other) -> bool:  # type: ignore[no-untyped-def]
+        return not self.__eq__(other)
+
+    __hash__ = None  # type: ignore[assignment]
+
+    def __le__(self, other):  # type: ignore[no-untyped-def]
+        return set.__le__(self, self._c(other))
+
+    def __ge__(self, other):  # type: ignore[no-untyped-def]
+        return set.__ge__(self, self._c(other))
+
+    def __lt__(self, other):  # type: ignore[no-untyped-def]
+        return set.__lt__(self, self._c(other))
+
+    def __gt__(self, other):  # type: ignore[no-untyped-def]
+        return set.__gt__(self, self._c(other))
+
+    def issubset(self, other):  # type: ignore[no-untyped-def]
+        return set.issubset(self, self._c(other))
+
+    def issuperset(self, other):  # type: ignore[no-untyped-def]
+        return set.issuperset(self, self._c(other))
+
+    def __sub__(self, other):  # type: ignore[no-untyped-def]
+        return AtomSet(set.__sub__(self, self._c(other)))
+
+    def __rsub__(self, other):  # type: ignore[no-untyped-def]
+        return AtomSet(set.__sub__(self._c(other), self))
+
+    def __and__(self, other):  # type: ignore[no-untyped-def]
+        return AtomSet(set.__and__(self, self._c(other)))
+
+    __rand__ = __and__
+
+    def __or__(self, other):  # type: ignore[no-untyped-def]
+        return AtomSet(set.__or__(self, self._c(other)))
+
+    __ror__ = __or__
+
+    def isdisjoint(self, other):  # type: ignore[no-untyped-def]
+        return set.isdisjoint(self, self._c(other))
+
+
 def guard_atoms(node: ast.AST, stop: Optional[ast.AST] = None) -> Set[Tuple[str, bool]]:
     out: Set[Tuple[str, bool]] = set()
     for test, pol in guards(node, stop):
         out.update(atoms(test, pol))
-    return out
+    return AtomSet(out)
 
 
 def isinstance_guard(node: ast.AST, var: str) -> Set[str]:
@@ -416,6 +509,49 @@ class Prov:
         return f"Prov(leaves={sorted(self.leaves)}, ops={sorted(self.ops)})"
 
 
+def expand_locals(expr: ast.AST, func: ast.AST, keep: Sequence[str] = ()) -> ast.AST:
+    """`expr` with every local name that is bound exactly once in `func` (by a plain assignment
+    to an await-free expression) replaced by that expression, recursively: a value that was
+    merely given a name reads the same as the value written in place."""
+    import copy
+
+    counts: Dict[str, int] = {}
+    single: Dict[str, ast.AST] = {}
+    for n in walk_local(func):
+        if isinstance(n, ast.Assign) and len(n.targets) == 1 and isinstance(n.targets[0], ast.Name):
+            counts[n.targets[0].id] = counts.get(n.targets[0].id, 0) + 1
+            single[n.targets[0].id] = n.value
+        elif isinstance(n, ast.AnnAssign) and isinstance(n.target, ast.Name) and n.value is not None:
+            counts[n.target.id] = counts.get(n.target.id, 0) + 1
+            single[n.target.id] = n.value
+        elif isinstance(n, (ast.Assign, ast.AugAssign, ast.For, ast.AsyncFor, ast.NamedExpr, ast.With, ast.AsyncWith, ast.comprehension)):
+            tgts = n.targets if isinstance(n, ast.Assign) else [getattr(n, "target", None)] if not isinstance(n, (ast.With, ast.AsyncWith)) else [i.optional_vars for i in n.items]
+            for tg in tgts:
+                for t in ast.walk(tg) if tg is not None else []:
+                    if isinstance(t, ast.Name):
+                        counts[t.id] = counts.get(t.id, 0) + 2
+    if isinstance(func, FuncT):
+        for a in func.args.posonlyargs + func.args.args + func.args.kwonlyargs:
+            counts[a.arg] = counts.get(a.arg, 0) + 2
+
+    def ok(name: str) -> bool:
+        return counts.get(name) == 1 and name not in keep and not any(isinstance(x, (ast.Await, ast.Yield, ast.YieldFrom, ast.NamedExpr)) for x in ast.walk(single[name]))
+
+    class T(ast.NodeTransformer):
+        def __init__(self) -> None:
+            self.depth = 0
+
+        def visit_Name(self, n: ast.Name):  # noqa: N802
+            if isinstance(n.ctx, ast.Load) and n.id in single and ok(n.id) and self.depth < 8:
+                self.depth += 1
+                new = self.visit(copy.deepcopy(single[n.id]))
+                self.depth -= 1
+                return new
+            return n
+
+    return T().visit(copy.deepcopy(expr))
+
+
 def local_defs(func: ast.AST, scope: Optional[Sequence[ast.stmt]] = None) -> Dict[str, List[Tuple[ast.AST, Tuple[str, ...]]]]:
     """name -> list of (rhs expr, extra ops) for every binding of a local name.
 
@@ -462,6 +598,15 @@ def local_defs(func: ast.AST, scope: Optional[Sequence[ast.stmt]] = None) -> Dic
             bind(n.target, n.iter, ("iter",))
         elif isinstance(n, ast.ExceptHandler) and n.name:
             defs.setdefault(n.name, []).append((n.type or ast.Constant(None), ("except",)))
+        # a container local filled element by element derives from what is put into it
+        if isinstance(n, ast.Assign):
+            for t in n.targets:
+                if isinstance(t, ast.Subscript) and isinstance(t.value, ast.Name):
+                    defs.setdefault(t.value.id, []).append((n.value, ("[]=",)))
+                    defs.setdefault(t.value.id, []).append((t.slice, ("[]=",)))
+        elif isinstance(n, ast.Expr) and isinstance(n.value, ast.Call) and isinstance(n.value.func, ast.Attribute) and isinstance(n.value.func.value, ast.Name) and n.value.func.attr in ("append", "extend", "update", "add", "insert", "setdefault"):
+            for a_ in n.value.args:
+                defs.setdefault(n.value.func.value.id, []).append((a_, (f".{n.value.func.attr}",)))
     return defs
 
 
